@@ -253,6 +253,38 @@ def rewrite_source(fn_text, rewrites, extra=None):
             raise ExtractError('rewrite absexpr:%s: the abstracted expression changed (sha %s, contract written for %s): its assumed contract may no longer describe it' % (v, got, sha))
         edits.append((toks[i + 3].pos, toks[j - 1].end, call))
         applied.append('initialiser of `%s` (%d tokens: `%s`) replaced by the ASSUMED contract of `%s`: that expression is NOT verified' % (v, len(expr_toks), ' '.join(expr_toks), call))
+    # R8: `for PAT in X.by_ref() { BODY }` -> `loop { match X.next() { Some(PAT) => { BODY } None => break, } }` (Verus has no
+    #     specification for `by_ref` / for-loops over `&mut I`). Declared per function as `rewrites=forbyref2loop`. This is the
+    #     definition of `for` over `&mut I` (`<&mut I as Iterator>::next` is `I::next`); `break` / `continue` in BODY bind to
+    #     the new loop exactly as they did to the `for`. Refused when BODY contains a loop label.
+    if 'forbyref2loop' in rewrites:
+        n = 0
+        T = [t.text for t in toks]
+        i = 0
+        while i < len(toks):
+            if T[i] == 'for' and toks[i].kind == 'id':
+                j = i + 1; d = 0
+                while j < len(toks) and not (T[j] == 'in' and d == 0):
+                    if T[j] in ('(', '['): d += 1
+                    elif T[j] in (')', ']'): d -= 1
+                    j += 1
+                k = j + 1
+                while k < len(toks) and T[k] != '{':
+                    if T[k] in ('(', '['): k = R.match_close(toks, k)
+                    k += 1
+                if k < len(toks) and k - 4 > j and T[k - 4:k] == ['.', 'by_ref', '(', ')']:
+                    b1 = R.match_close(toks, k)
+                    if any(t.kind == 'lifetime' for t in toks[k:b1]) or any(t.startswith("'") and len(t) > 1 and not t.endswith("'") for t in T[k:b1]):
+                        raise ExtractError('rewrite forbyref2loop: the loop body uses a label')
+                    pat = fn_text[toks[i + 1].pos:toks[j - 1].end]
+                    recv = fn_text[toks[j + 1].pos:toks[k - 5].end]
+                    edits.append((toks[i].pos, toks[k].end, 'loop { match %s.next() { Some(%s) => {' % (recv, pat)))
+                    edits.append((toks[b1].pos, toks[b1].end, '} None => break, } }'))
+                    n += 1
+                    i = k + 1; continue
+            i += 1
+        if n: applied.append('%d `for PAT in X.by_ref() { .. }` loop(s) written as `loop { match X.next() { Some(PAT) => { .. } None => break, } }`' % n)
+        else: raise ExtractError('rewrite forbyref2loop: no `for PAT in X.by_ref()` loop found')
     out = fn_text
     for s, e, r in sorted(edits, reverse=True):
         out = out[:s] + r + out[e:]
